@@ -728,4 +728,57 @@ Section Steps.
     - destruct Hit as (s1 & Hst & Hr1 & Haft). destruct (Hcont s1 Hr1 Haft) as [s' Hs'].
       exists s'. rewrite Hst, Hs', cons_res_ok. rewrite pack_result_cons. reflexivity.
   Qed.
+
+  Lemma at_word_step f : at_word_ok f -> in_pack_ok (S f) -> at_word_ok (S f).
+  Proof.
+    intros IHw P2 s pre rem Hr Ea Hi Hp Hm.
+    destruct rem as [|w rest].
+    { exists (set_optarg None s). rewrite (stop_end s f Hr) by (rewrite Hi, Ea, app_nil_r; lia).
+      rewrite Hi. reflexivity. }
+    rewrite mrest_cons in Hm.
+    (* continuing at the next word *)
+    assert (forall s1 ev, step s s1 ev -> ready s1 -> g_optind s1 = S (length pre) -> g_packed s1 = None ->
+              exists s', loop (S f) s argv = Ok (cons_ev ev (spec_from LS LL MI rest (S (length pre))), s')) as Hnext.
+    { intros s1 ev Hst Hr1 A1 A2.
+      destruct (IHw s1 (pre ++ [w]) rest Hr1) as [s' Hs'];
+        [rewrite Ea; apply app_one | rewrite len_one; exact A1 | exact A2 | lia |].
+      exists s'. rewrite Hst, Hs', cons_res_ok, len_one. reflexivity. }
+    cbn [spec_from]. destruct (classify w) eqn:Hc.
+    - exists (set_optarg None s). apply (stop_operand s f pre w rest Hr Ea Hi Hp Hc).
+    - apply classify_dd in Hc. subst w. eexists. apply (stop_dashdash s f pre rest Hr Ea Hi Hp).
+    - destruct (classify_long w body Hc) as (b & body' & -> & ->).
+      pose proof (iter_long s pre b body' rest Hr Ea Hi Hp) as Hit. cbv zeta in Hit.
+      rewrite cod_long_fm.
+      destruct (fm tb 0 (DASH :: DASH :: b :: body')) as [[[[j n] h] v]|].
+      + destruct h.
+        * destruct v as [x|].
+          -- destruct Hit as (s1 & Hst & Hr1 & A1 & A2). exact (Hnext s1 _ Hst Hr1 A1 A2).
+          -- destruct rest as [|a rest'].
+             ++ destruct Hit as (s1 & Hst & Hr1 & A1 & A2). destruct f as [|f']; [lia|].
+                exists (set_optarg None s1). rewrite Hst.
+                rewrite (stop_end s1 f' Hr1) by (rewrite A1, Ea, length_mid; cbn [length]; lia).
+                rewrite cons_res_ok. rewrite A1. reflexivity.
+             ++ destruct Hit as (s1 & Hst & Hr1 & A1 & A2).
+                destruct (IHw s1 (pre ++ [DASH :: DASH :: b :: body'; a]) rest' Hr1) as [s' Hs'];
+                  [rewrite Ea, <- app_assoc; reflexivity | rewrite app_length; cbn [length]; lia | exact A2
+                   | rewrite mrest_cons in Hm; lia |].
+                exists s'. rewrite Hst, Hs', cons_res_ok.
+                replace (length (pre ++ [DASH :: DASH :: b :: body'; a])) with (S (S (length pre)))
+                  by (rewrite app_length; cbn [length]; lia).
+                reflexivity.
+        * destruct v as [x|]; destruct Hit as (s1 & Hst & Hr1 & A1 & A2); exact (Hnext s1 _ Hst Hr1 A1 A2).
+      + destruct Hit as (s1 & Hst & Hr1 & A1 & A2). exact (Hnext s1 _ Hst Hr1 A1 A2).
+    - destruct (classify_pack w cs Hc) as (c & r & -> & -> & Hcd).
+      destruct (P2 s pre [DASH] c r rest Hr Ea Hi) as [s' Hs'];
+        [right; auto | cbn [length] in Hm; lia |].
+      exists s'. rewrite Hs'. unfold pack_result.
+      destruct (spec_pack LS (c :: r)) as [evs [|name]]; [reflexivity|]. destruct rest; reflexivity.
+  Qed.
+
+  Lemma loop_ok fuel : at_word_ok fuel /\ in_pack_ok fuel.
+  Proof.
+    induction fuel as [|f [IHw IHp]].
+    - split; [intros s pre rem _ _ _ _ H | intros s pre wp c r rest _ _ _ _ H]; lia.
+    - pose proof (in_pack_step f IHw IHp) as P2. split; [apply at_word_step; assumption | exact P2].
+  Qed.
 End Steps.
